@@ -17,6 +17,30 @@ reg('C10', 'exploration',
     'the model of the nominal step (fixed dt, or last non-None adaptive value, '
     'times the documented damping factor).')
 
+reg('C15', 'exploration',
+    'metamorphic monitors (reflection, equal sides, Galilean shift, scaling, '
+    'independent pressure-function residual, vacuum refusal) on the real '
+    'solver functions and the dispatch function',
+    'Held on every generated gas state explored (rho, p over 12 decades, u up '
+    'to 1e3 sound speeds, gamma in (1,3], niter, tol): ~6e4 states x 11 '
+    'solvers per quick run, 2e6 per thorough run.',
+    'Python form of the solver functions (the transpiled form is the same '
+    'source); tolerances are rounding models relative to the natural '
+    'pressure/velocity scales; ill-conditioned comparisons are counted, not '
+    'asserted.')
+
+reg('C08', 'exploration',
+    'independent numerical oracles (per-piece Gauss-Legendre quadrature, '
+    'derivative of a Chebyshev interpolant of the observed W, scaling law, '
+    'finite differences in h) plus call-by-call comparison with the compiled '
+    'c_kernels twins',
+    'Held for all 10 kernel classes x every dimension they accept x h from '
+    '1e-6 to 1e6 on grids that include every piece boundary and the support '
+    'edge +-1 ulp and random directions.',
+    'Numerical tolerances: 2e-12 on the integral of polynomial kernels, 2e-8 '
+    'of the natural scale on derivatives; Gaussian family integral only to '
+    'its documented truncation; r > 2e-12.')
+
 _pending = {
 }
 for _i in range(1, 21):
